@@ -385,6 +385,8 @@ class MultitaskMultivariateNormal(MultivariateNormal):
                     row_idx = torch.arange(num_rows)[row_idx]
                 if isinstance(col_idx, slice):
                     col_idx = torch.arange(num_cols)[col_idx]
+                row_idx = _normalize_indices(row_idx, num_rows)
+                col_idx = _normalize_indices(col_idx, num_cols)
                 row_grid, col_grid = torch.meshgrid(row_idx, col_idx, indexing="ij")
                 indices = (row_grid * num_cols + col_grid).reshape(-1)
                 new_cov = self.lazy_covariance_matrix[batch_idx + (indices,)][..., indices]
@@ -393,6 +395,8 @@ class MultitaskMultivariateNormal(MultivariateNormal):
                 )
             else:
                 # row_idx and col_idx have pairs of indices
+                row_idx = _normalize_indices(row_idx, num_rows)
+                col_idx = _normalize_indices(col_idx, num_cols)
                 indices = row_idx * num_cols + col_idx
                 new_cov = self.lazy_covariance_matrix[batch_idx + (indices,)][..., indices]
                 return MultivariateNormal(
@@ -409,6 +413,15 @@ def _normalize_index(i: int, dim_size: int) -> int:
         return dim_size + i
     else:
         return i
+
+
+def _normalize_indices(idx, dim_size: int):
+    # Negative entries of an index tensor count from the end, as they do when the mean is indexed
+    if torch.is_tensor(idx):
+        return torch.where(idx < 0, idx + dim_size, idx)
+    elif isinstance(idx, int):
+        return _normalize_index(idx, dim_size)
+    return idx
 
 
 def _normalize_slice(s: slice, dim_size: int) -> slice:
